@@ -24,7 +24,7 @@ func (m *machine) violate(kind, id, detail string) {
 	v := &violationRec{Kind: kind, ID: id, Detail: detail}
 	// obtain a model of the current path condition (plus whatever frame the
 	// last Sat check left on the solver stack)
-	if m.chk( nil) == Sat {
+	if m.chk(nil) == Sat {
 		var ts []*Term
 		for _, n := range m.nondets {
 			ts = append(ts, n.Term)
@@ -142,7 +142,7 @@ func (e *Engine) installIntrinsics() {
 			m.addPC(c)
 			return nil
 		}
-		switch m.chk( c) {
+		switch m.chk(c) {
 		case Unsat:
 			m.end("assume", "")
 		case Sat:
@@ -567,6 +567,13 @@ func (e *Engine) installIntrinsics() {
 }
 
 func (m *machine) assert(c *Term, id string) {
+	if m.eng.concrete != nil {
+		if v, ok := c.Const(); ok {
+			m.digest = append(m.digest, fmt.Sprintf("%s=%v", id, v != 0))
+		} else {
+			m.digest = append(m.digest, id+"=SYMBOLIC")
+		}
+	}
 	rec := assertRec{ID: id, PCSize: len(m.pc)}
 	if c.IsConst() {
 		rec.Trivial = true
@@ -579,7 +586,7 @@ func (m *machine) assert(c *Term, id string) {
 		m.asserts = append(m.asserts, rec)
 		m.violate("assert", id, "assertion is constant false at "+m.where())
 	}
-	r := m.chk( m.ctx.Not(c))
+	r := m.chk(m.ctx.Not(c))
 	switch r {
 	case Unsat:
 		rec.Result = "discharged"
@@ -695,6 +702,15 @@ func (m *machine) uf(tag string, in []*Term, n int) []*Term {
 // newVarHidden creates a fresh variable that is not a harness nondet (not
 // part of the replay witness).
 func (m *machine) newVarHidden(kind string, w int) *Term {
+	if m.eng.concrete != nil {
+		switch kind {
+		case "clock":
+			return m.ctx.BV(1<<41, w)
+		case "clockstep":
+			return m.ctx.BV(uint64(m.eng.concreteChoice(1000)), w)
+		}
+		return m.ctx.BV(m.eng.concreteValue("byte", w), w)
+	}
 	m.w.hidden++
 	t := m.ctx.Var(fmt.Sprintf("h%d_%d_%s", len(m.nondets), m.w.hidden, kind), w)
 	m.hiddenVars = append(m.hiddenVars, t)
